@@ -1,11 +1,10 @@
 SPECIFICATION Spec
 CONSTANTS
   Cmds <- NumCmds
-  InitSt <- StringInit
+  SetupCmds <- StringSetup
   Bound <- NumBound
   T0 = 1000
 VIEW View
-CONSTRAINT Constraint
 ACTION_CONSTRAINT Emit
 INVARIANT TypeOK
 PROPERTY ErrorsChangeNothing
